@@ -18,6 +18,7 @@ import (
 
 	"github.com/pegnet/pegnet/modules/grader"
 	"github.com/pegnet/pegnetd/config"
+	"github.com/pegnet/pegnetd/fat/fat2"
 	"github.com/pegnet/pegnetd/node"
 	"github.com/sirupsen/logrus"
 	"github.com/spf13/viper"
@@ -358,4 +359,47 @@ func gid() uint64 {
 	i := bytes.IndexByte(b, ' ')
 	id, _ := strconv.ParseUint(string(b[:i]), 10, 64)
 	return id
+}
+
+// CacheState is the only ledger-relevant state a running node keeps outside the database:
+// the averaging window cache. Together with a copy of the database file it is a full clone
+// of a running node between two blocks.
+type CacheState struct {
+	Data     map[fat2.PTicker][]uint64
+	Averages map[fat2.PTicker]uint64
+	Height   uint32
+}
+
+func (d *Daemon) CacheSnapshot() CacheState {
+	cs := CacheState{Height: d.Node.LastAveragesHeight}
+	if d.Node.LastAveragesData != nil {
+		cs.Data = map[fat2.PTicker][]uint64{}
+		for k, v := range d.Node.LastAveragesData {
+			cs.Data[k] = append([]uint64(nil), v...)
+		}
+	}
+	if d.Node.LastAverages != nil {
+		cs.Averages = map[fat2.PTicker]uint64{}
+		for k, v := range d.Node.LastAverages {
+			cs.Averages[k] = v
+		}
+	}
+	return cs
+}
+
+func (d *Daemon) CacheRestore(cs CacheState) {
+	d.Node.LastAveragesHeight = cs.Height
+	d.Node.LastAveragesData, d.Node.LastAverages = nil, nil
+	if cs.Data != nil {
+		d.Node.LastAveragesData = map[fat2.PTicker][]uint64{}
+		for k, v := range cs.Data {
+			d.Node.LastAveragesData[k] = append([]uint64(nil), v...)
+		}
+	}
+	if cs.Averages != nil {
+		d.Node.LastAverages = map[fat2.PTicker]uint64{}
+		for k, v := range cs.Averages {
+			d.Node.LastAverages[k] = v
+		}
+	}
 }
